@@ -179,7 +179,14 @@ class Gamma:
 
     def attrs(self, aj, table="n"):
         """J form [[k, v], ...] -> python dict"""
-        return {ATTR_KEYS[k]: self.attr_value(v, table) for k, v in aj}
+        out = {}
+        for k, v in aj:
+            if k == 9 and table in ("n", "e") and v[0] == 3:  # merged 'label' records: a set of labels
+                lab = self.node if table == "n" else self.edge
+                out[ATTR_KEYS[k]] = {lab(x) for x in v[1:]}
+            else:
+                out[ATTR_KEYS[k]] = self.attr_value(v, table)
+        return out
 
     def inv_attr_value(self, key, val, table):
         if key == "label" and table in ("n", "e"):
